@@ -54,7 +54,7 @@ func (e *Engine) validVal(st *State, v Val) *smt.Term {
 	case *types.Basic:
 		if u.Info()&types.IsString != 0 {
 			l := e.strLen(v.Terms[0])
-			return e.C.And(e.C.Op("bvsle", smt.Bool, e.C.BVLit64(0, 64), l), e.C.Op("bvsle", smt.Bool, l, e.C.BVLit64(1<<62, 64)))
+			return e.C.And(e.C.Op("bvsle", smt.Bool, e.C.BVLit64(0, 64), l), e.C.Op("bvsle", smt.Bool, l, e.C.BVLit64(sizeBound, 64)))
 		}
 	case *types.Struct:
 		var cs []*smt.Term
@@ -146,9 +146,40 @@ func (e *Engine) call(f *frame, st *State, instr ssa.Value, cc *ssa.CallCommon, 
 		return e.staticCall(f, st, fv.Fn, args, fv.Binds, rt, pos, cc)
 	}
 	e.oblige(st, "nil", "", e.C.Not(e.C.Eq(fv.Terms[0], e.C.IntLit(0))), pos, "call of nil function value")
+	if prm, ok := cc.Value.(*ssa.Parameter); ok && f.ct != nil {
+		for i, cl := range f.ct.Calls[prm.Name()] {
+			ctx := &evalCtx{e: e, f: f, st: st, old: f.entry, bound: map[string]EV{}, pkg: typesPkgOf(f.fn)}
+			for k, a := range args {
+				ctx.bound[fmt.Sprintf("arg%d", k)] = EV{V: a}
+			}
+			e.oblige(st, "pre", fmt.Sprintf("%s.%s@%s", prm.Name(), clauseLabel(cl, i), callOrd(e, "dyn:"+prm.Name())), ctx.boolean(cl.Expr, cl.Text), pos,
+				"callback "+prm.Name()+" may only be called with: "+cl.Text)
+		}
+	}
 	e.note("dynamic call of unknown function value: all memory havocked, results unconstrained")
 	e.havocFamilies(st, []string{"*"})
-	return e.havocResult(st, "dyncall", rt)
+	res := e.havocResult(st, "dyncall", rt)
+	if prm, ok := cc.Value.(*ssa.Parameter); ok && f.ct != nil {
+		for _, cl := range f.ct.CallsEns[prm.Name()] {
+			ctx := &evalCtx{e: e, f: f, st: st, old: f.entry, bound: map[string]EV{}, pkg: typesPkgOf(f.fn)}
+			for k, a := range args {
+				ctx.bound[fmt.Sprintf("arg%d", k)] = EV{V: a}
+			}
+			if tup, ok := rt.(*types.Tuple); ok {
+				for k := 0; k < tup.Len(); k++ {
+					off, n := e.tupleRange(tup, k)
+					rv := Val{Typ: tup.At(k).Type(), Terms: res.Terms[off : off+n]}
+					e.wrapPtr(&rv)
+					ctx.bound[fmt.Sprintf("result%d", k)] = EV{V: rv}
+				}
+			} else {
+				ctx.bound["result0"] = EV{V: res}
+			}
+			e.assume(st, ctx.boolean(cl.Expr, cl.Text))
+			e.note("assumed about callback " + prm.Name() + ": " + cl.Text)
+		}
+	}
+	return res
 }
 
 func externalIface(t types.Type) bool {
@@ -294,7 +325,7 @@ func (e *Engine) builtin(f *frame, st *State, b *ssa.Builtin, cc *ssa.CallCommon
 			return Val{Typ: rt, Terms: []*smt.Term{a.Terms[2]}}
 		case *types.Basic:
 			l := e.strLen(a.Terms[0])
-			e.assume(st, c.And(c.Op("bvsle", smt.Bool, c.BVLit64(0, 64), l), c.Op("bvsle", smt.Bool, l, c.BVLit64(1<<62, 64))))
+			e.assume(st, c.And(c.Op("bvsle", smt.Bool, c.BVLit64(0, 64), l), c.Op("bvsle", smt.Bool, l, c.BVLit64(sizeBound, 64))))
 			return Val{Typ: rt, Terms: []*smt.Term{l}}
 		case *types.Map:
 			a.Typ = cc.Args[0].Type()
@@ -322,6 +353,9 @@ func (e *Engine) builtin(f *frame, st *State, b *ssa.Builtin, cc *ssa.CallCommon
 		return Val{Typ: rt}
 	case "print", "println":
 		return Val{Typ: rt}
+	case "ssa:wrapnilchk":
+		e.nilCheck(st, args[0], pos, "nil receiver in method wrapper")
+		return e.retag(args[0], rt)
 	case "min", "max":
 	}
 	panic(reject("builtin " + b.Name()))
@@ -345,7 +379,7 @@ func (e *Engine) appendModel(f *frame, st *State, cc *ssa.CallCommon, args []Val
 	// new backing array (used when it does not fit)
 	fresh := e.newRef(st)
 	newCap := c.Fresh("append.cap", smt.BV(64))
-	e.assume(st, c.And(c.Op("bvsle", smt.Bool, newLen, newCap), c.Op("bvsle", smt.Bool, newCap, c.BVLit64(1<<62, 64))))
+	e.assume(st, c.And(c.Op("bvsle", smt.Bool, newLen, newCap), c.Op("bvsle", smt.Bool, newCap, c.BVLit64(sizeBound, 64))))
 	comps := e.comps(el)
 	// element-wise effect is exact only for appending a single-element varargs slice (the common x = append(x, v))
 	single := false
